@@ -42,10 +42,13 @@ type Case struct {
 	// Empty: every Empty-th row has no value at all (an empty map, or nil for
 	// every other one of them); 0 = none
 	Empty int
+	// Neighbour: while this writer is fed, a second, independent writer of the
+	// same kind (own output, own rows) is fed by one more goroutine
+	Neighbour bool
 }
 
 func (c *Case) Summary() string {
-	return fmt.Sprintf("writer=%s goroutines=%d rows=%d shared-cols=%d mods=%v split=%d reuse-map=%v flush-during-adds=%v every-%d-th-row-without-values", map[bool]string{true: "big", false: "in-memory"}[c.Big], c.Goroutines, c.Total, c.Cols, c.K, c.Split, c.ReuseMap, c.FlushDuring, c.Empty)
+	return fmt.Sprintf("writer=%s goroutines=%d rows=%d shared-cols=%d mods=%v split=%d reuse-map=%v flush-during-adds=%v every-%d-th-row-without-values neighbouring-writer=%v", map[bool]string{true: "big", false: "in-memory"}[c.Big], c.Goroutines, c.Total, c.Cols, c.K, c.Split, c.ReuseMap, c.FlushDuring, c.Empty, c.Neighbour)
 }
 
 var colNames = []string{"a", "b", "c", "d"}
@@ -102,7 +105,7 @@ func oracle(c *Case) (interleaved bool, err error) {
 	}
 	start := make(chan struct{})
 	errs := make([]error, c.Goroutines)
-	var active, maxActive atomic.Int32
+	var active, maxActive, finished atomic.Int32
 	var added atomic.Int64
 	var wg sync.WaitGroup
 	for g := 0; g < c.Goroutines; g++ {
@@ -118,6 +121,7 @@ func oracle(c *Case) (interleaved bool, err error) {
 				}
 			}
 			defer active.Add(-1)
+			defer finished.Add(1)
 			errs[g] = fix.Safe(func() error {
 				reused := map[string]string{}
 				for i := 0; i < c.Total; i++ {
@@ -173,8 +177,54 @@ func oracle(c *Case) (interleaved bool, err error) {
 			})
 		}()
 	}
+	var nbErr error
+	if c.Neighbour {
+		var nb adder
+		nbOut := out + ".neighbour"
+		if c.Big {
+			ntdb, err := bbolt.Open(nbOut+".tmp", 0o600, nil)
+			if err != nil {
+				return false, fmt.Errorf("INFRA: %v", err)
+			}
+			defer ntdb.Close()
+			ndb, err := bbolt.Open(nbOut, 0o644, nil)
+			if err != nil {
+				return false, fmt.Errorf("INFRA: %v", err)
+			}
+			defer ndb.Close()
+			bw, err := updog.NewBigIndexWriter(ndb, ntdb)
+			if err != nil {
+				return false, err
+			}
+			nb = bw
+			if cl, ok := any(bw).(interface{ Close() error }); ok {
+				defer cl.Close()
+			}
+		} else {
+			nb = updog.NewIndexWriter(nbOut)
+		}
+		wg.Add(1)
+		go func() {
+			defer wg.Done()
+			<-start
+			nbErr = fix.Safe(func() error {
+				for i := 0; added.Load() < int64(c.Total) && i < 4*c.Total+1000; i++ {
+					if _, err := nb.AddRow(map[string]string{"neighbour-column": fmt.Sprintf("n%d", i%97), "zz": fmt.Sprint(i)}); err != nil {
+						return err
+					}
+					if finished.Load() >= int32(c.Goroutines) {
+						return nil // all feeders are done (some may have given up)
+					}
+				}
+				return nil
+			})
+		}()
+	}
 	close(start)
 	wg.Wait()
+	if nbErr != nil {
+		return false, fmt.Errorf("the neighbouring writer: AddRow: %v", nbErr)
+	}
 	for _, e := range errs {
 		if e != nil {
 			return false, e
@@ -312,6 +362,7 @@ func drawCase(t *rapid.T) *Case {
 	if rapid.IntRange(0, 2).Draw(t, "empties") == 0 {
 		c.Empty = rapid.SampledFrom([]int{2, 3, 5, 17}).Draw(t, "empty")
 	}
+	c.Neighbour = rapid.IntRange(0, 2).Draw(t, "neighbour") == 0
 	return c
 }
 
